@@ -91,6 +91,7 @@ structure SessSt where
   auth : Auth.AuthSt := {}
   nonces : List Bytes := []
   closed : Bool := false
+  hasSession : Bool := false   -- a DESCRIBE of this connection was answered: the connection holds its sub session
   lastWww : Option Bytes := none
   out : List String := []
   spec : List String := []   -- specification-side verdict per step: "sdp" | "nosdp"
@@ -110,7 +111,12 @@ def sessStep (conf : Auth.AuthConf) (st : SessSt) (step : String) : SessSt :=
        (conf.method == 1 && AccessSpec.validDigest Md5.md5hex conf.username conf.password issued (asc "DESCRIBE") authorization)))
   let spec := if valid then "sdp" else "nosdp"
   match o with
-  | .pass => { st with auth := a, out := st.out ++ ["sdp"], spec := st.spec ++ [spec] }
+  | .pass =>
+    -- one ANNOUNCE / DESCRIBE per connection (handleDescribe, after the authentication stage): a repeated DESCRIBE on a
+    -- connection that already holds a session ends the connection whatever its credentials; the authentication
+    -- property speaks about requests up to the first description (verdict `-` afterwards)
+    if st.hasSession then { st with auth := a, closed := true, out := st.out ++ ["closed"], spec := st.spec ++ ["-"] }
+    else { st with auth := a, hasSession := true, out := st.out ++ ["sdp"], spec := st.spec ++ [spec] }
   | .fail => { st with auth := a, closed := true, out := st.out ++ ["closed"], spec := st.spec ++ [spec] }
   | .challenge s =>
     if hasPrefix s (asc "Digest") then
